@@ -24,6 +24,28 @@ def known_for(pid, hname):
     return out
 
 
+def smt_main(pid, h, tier, known, t0):
+    """Engine B harness: direct solver queries; known findings as z3-python predicates."""
+    res = h.run(tier, known=[k['predicate'] for k in known])
+    res.update(harness=h.name, tier=tier, bounds=h.bounds[tier], symbolic=h.symbolic, note=h.note, known=[], replays=[])
+    root = os.path.dirname(os.path.dirname(os.path.abspath(__file__)))
+    for f in res['failures']:
+        blob = json.dumps({'property': pid, 'harness': h.name, 'tier': tier, 'inputs': f['inputs'],
+                           'failure': f['concrete_failure']}, sort_keys=True)
+        rp = os.path.join(root, 'replays', f'{pid}-{h.name}-{hashlib.sha1(blob.encode()).hexdigest()[:10]}.json')
+        os.makedirs(os.path.dirname(rp), exist_ok=True)
+        open(rp, 'w').write(blob)
+        res['replays'].append(rp)
+    for k in known:
+        w = h.run(tier, only=k['predicate'])
+        res['known'].append({'what': k['what'], 'predicate': k['predicate'], 'witnessed': w['verdict'] == 'REFUTED',
+                             'witness': (w['failures'][0]['readable'] if w['failures'] else None),
+                             'verdict': w['verdict'], 'paths': w['paths']})
+        res['paths'] += w['paths']
+    res['total_wall_s'] = round(time.time() - t0, 2)
+    print(json.dumps(res, default=str))
+
+
 def main():
     pid, hname, tier = sys.argv[1:4]
     t0 = time.time()
@@ -47,6 +69,8 @@ def main():
     import random
     random.seed(seed)
     budget = float(os.environ.get('VERIF_TIMEOUT_SCALE', '1')) * h.timeout[tier]
+    if getattr(h, 'kind', '') == 'smt':
+        return smt_main(pid, h, tier, known, t0)
     res = explore(h.body(tier), bounds={}, timeout=budget, per_path=h.per_path, max_paths=h.max_paths,
                   float_model=h.float_model, known=preds, smt_timeout=h.smt_timeout)
     res['harness'] = hname
